@@ -371,6 +371,16 @@ class Exec(object):
             def go(o, s):
                 return self.setattr(o, tgt.attr, v, s)
             return self.bind_stmt(self.eval(tgt.value, st, fr), go)
+        if isinstance(tgt, (ast.Tuple, ast.List)) and isinstance(v, VRef) and isinstance(st.heap[v.ref], HList) \
+                and st.heap[v.ref].items is None and st.heap[v.ref].seq is not None:
+            # unpacking a list of symbolic length: ValueError unless it has exactly that many items
+            h = st.heap[v.ref]
+            n_ = len(tgt.elts)
+
+            def ok(s):
+                tup = VTuple([wrap(s.heap[v.ref].seq[k], h.etype) for k in range(n_)])
+                return self.assign(tgt, tup, s, fr)
+            return self.branch(z3.Length(h.seq) == n_, st, ok, lambda s: self.exc(ValueError, s))
         if isinstance(tgt, (ast.Tuple, ast.List)):
             items = self.unpack(v, len(tgt.elts), st)
             if items is None:
@@ -395,6 +405,9 @@ class Exec(object):
     def unpack(self, v, n, st):
         if isinstance(v, VTuple) and len(v.items) == n:
             return v.items
+        if isinstance(v, VRef) and isinstance(st.heap[v.ref], HList) and st.heap[v.ref].items is not None \
+                and len(st.heap[v.ref].items) == n:
+            return st.heap[v.ref].items
         return None
 
     def setattr(self, o, attr, v, st):
